@@ -75,7 +75,8 @@ ROUTES = ["triples", "so", "so_unique", "so_list", "value", "slice", "resource",
           "ds_union", "ds_default", "ds_named", "agg", "in_agg", "in_ds", "sparql_const", "sparql_values",
           "sparql_tree", "sparql_init", "sparql_ds_union", "sparql_ds_default", "sparql_ds_graph", "sparql_ds_init",
           "sparql_agg", "sparql_agg_values", "sparql_agg_init", "sparql_n3", "api", "first_false",
-          "sparql_same", "sparql_join_before", "sparql_join_after", "sparql_same_init", "sparql_same_values", "view"]
+          "sparql_same", "sparql_join_before", "sparql_join_after", "sparql_same_init", "sparql_same_values", "view",
+          "sparql_gvar1", "sparql_gvar2"]
 FULL, DEFAULT, NAMED, AGG = 0, 1, 2, 3
 ROUTE_GRAPH = {"so_unique": FULL, "so_list": FULL, "value": FULL, "slice": FULL, "resource": FULL, "eval_direct": FULL,
                "interleave": FULL, "interleave_b": DEFAULT,
@@ -85,7 +86,7 @@ ROUTE_GRAPH = {"so_unique": FULL, "so_list": FULL, "value": FULL, "slice": FULL,
                "sparql_ds_union": FULL, "sparql_ds_default": DEFAULT, "sparql_ds_graph": NAMED, "sparql_ds_init": FULL,
                "sparql_agg": AGG, "sparql_agg_values": AGG, "sparql_agg_init": AGG, "sparql_n3": FULL, "api": FULL, "first_false": FULL,
                "sparql_same": FULL, "sparql_join_before": FULL, "sparql_join_after": FULL, "sparql_same_init": FULL,
-               "sparql_same_values": FULL, "view": FULL}
+               "sparql_same_values": FULL, "view": FULL, "sparql_gvar1": NAMED, "sparql_gvar2": NAMED}
 BGP_ROUTES = ("sparql_same", "sparql_join_before", "sparql_join_after", "sparql_same_init", "sparql_same_values")
 GNAME2 = URIRef(E + "g2")
 # round h: the KIND of graph object every `env["g"]` route runs on (case["kind"]):
@@ -714,8 +715,8 @@ def gen_empty_view(rng):
         o = s
     return {"triples": T, "ghost": ghost, "path": path, "ends": [[s, None], [None, o], [s, o], [None, None]],
             "routes": ["triples", "so", "agg", "ds_default", "ds_named", "sparql_const", "sparql_tree", "sparql_ds_union",
-                       "sparql_ds_default", "sparql_ds_graph", "sparql_n3"] + list(BGP_ROUTES) + ["view"], "style": rng.choice([0, 1, 2]),
-            "kind": rng.choice(KINDS)}
+                       "sparql_ds_default", "sparql_ds_graph", "sparql_n3"] + list(BGP_ROUTES) + ["view", "sparql_gvar1", "sparql_gvar2"],
+            "style": rng.choice([0, 1, 2]), "kind": rng.choice(KINDS)}
 
 
 # ---- incremental construction from shared sub-path objects ------------------------------------------------
@@ -911,7 +912,7 @@ def gen_case(rng, tier, i):
     if i % 2 == 0:
         routes += ["sparql_const", "sparql_values", "sparql_tree"]
         if "ds_union" in routes:
-            routes += ["sparql_ds_union", "sparql_ds_default", "sparql_ds_graph", "sparql_ds_init"]
+            routes += ["sparql_ds_union", "sparql_ds_default", "sparql_ds_graph", "sparql_ds_init", "sparql_gvar1", "sparql_gvar2"]
         else:
             # SPARQL over the composite graph: the hops of a path lie in different member graphs
             routes += ["sparql_agg", "sparql_agg_values", "sparql_agg_init", "sparql_init"]
@@ -966,6 +967,8 @@ def _applicable(route, case, s, o, parts):
         return False        # `?x path ?x` with ?x pre-bound to the case's start term
     if route == "sparql_same_values" and s not in {x for t in parts[view_part(case)] for x in (t[0], t[2])}:
         return False        # VALUES with a term absent from the graph: C15-K1 (see ASSUMPTIONS)
+    if route == "sparql_gvar2" and not _third(case):
+        return False        # the second named graph is only registered in ds_u / ds_d when it holds a triple
     if route == "first_false" and case["path"][0] != "m":
         return False        # MulPath.eval(graph, s, o, first=False): only a MulPath has the flag
     one_end = (s is None) != (o is None)
@@ -1092,6 +1095,18 @@ def _run_route(route, env, path_ast, s, o):
         return [(s, o)] if (S, P, O) in env["ds_u"] else []
     txt = None if has_empty_alt(path_ast) else sparql_text(path_ast, env["style"])
     g = env["g"]
+    if route in ("sparql_gvar1", "sparql_gvar2"):
+        # GRAPH ?g { s path o } over the dataset: one evaluation per named graph (never the default graph), ?g bound to it
+        ds = env["ds_d"] if env["style"] else env["ds_u"]
+        pat = "%s %s %s" % ("?s" if s is None else _n3(s), txt, "?o" if o is None else _n3(o))
+        rows = ds.query(PFX + "SELECT ?g ?s ?o WHERE { GRAPH ?g { %s } }" % pat).bindings
+        from rdflib.term import Variable
+        vg, vs, vo = Variable("g"), Variable("s"), Variable("o")
+        strange = {r[vg] for r in rows} - {GNAME, GNAME2}
+        if strange:
+            raise ValueError("GRAPH ?g bound to %r" % sorted(strange))
+        want_g = GNAME if route == "sparql_gvar1" else GNAME2
+        return back((r.get(vs, S), r.get(vo, O)) for r in rows if r[vg] == want_g)
     if route in BGP_ROUTES:
         if route == "sparql_same":
             res = g.query(PFX + "SELECT ?x WHERE { ?x %s ?x }" % txt)
@@ -1204,7 +1219,7 @@ def _build_env(case, parts):
         _fill(g0, parts[DEFAULT], ghost)
         env["g0"] = g0
     third = _third(case)
-    if any(r.startswith("ds_") or r.startswith("sparql_ds") or r == "in_ds" for r in case["routes"]):
+    if any(r.startswith("ds_") or r.startswith("sparql_ds") or r.startswith("sparql_gvar") or r == "in_ds" for r in case["routes"]):
         for key, union in (("ds_u", True), ("ds_d", False)):
             ds = Dataset(default_union=union)
             _fill(ds.default_context if hasattr(ds, "default_context") else ds, parts[DEFAULT], ghost)
@@ -1379,7 +1394,7 @@ def run_impl(case):
             obs.append(const_line.get((s, o), "ERR:Other"))
             stats["route_sparql_tree"] = stats.get("route_sparql_tree", 0) + 1
             continue
-        T = parts[route_part(route, case)]
+        T = parts[route_part(route, case)] if route != "sparql_gvar2" else _third(case)
         want = expected(ast, T, s, o)
         ast_r = ast
         if route == "first_false" and not (s is None and o is None):
@@ -1525,6 +1540,10 @@ def model_lines(case):
         lines += ["bgp same * " + toks, "bgp before " + toks, "bgp after " + toks]
         for s, o in case["ends"]:
             lines.append(f"bgp same {_w(s)} {toks}")
+    if "sparql_gvar1" in case["routes"]:
+        for T in (parts[NAMED], _third(case)):
+            for s, o in case["ends"]:
+                lines.append(f"veval plain {_w(s)} {_w(o)} {toks} / " + " ".join("%d,%d,%d" % t for t in T))
     if "view" in case["routes"]:
         kind = case.get("kind", "graph")
         tl = lambda T: " ".join("%d,%d,%d" % t for t in T)  # noqa: E731
@@ -1575,8 +1594,13 @@ def select_model_obs(case, out):
     api_base = n3_base + ((n + 3) if "sparql_n3" in case["routes"] else 0)
     ff_base = api_base + ((n + 1) if "api" in case["routes"] else 0)
     bgp_base = ff_base + ((n + 1) if "first_false" in case["routes"] and case["path"][0] == "m" else 0)
-    view_base = bgp_base + ((n + 4) if "sparql_same" in case["routes"] else 0)
+    gvar_base = bgp_base + ((n + 4) if "sparql_same" in case["routes"] else 0)
+    view_base = gvar_base + (2 * n if "sparql_gvar1" in case["routes"] else 0)
     for s, o, route in plan:
+        if route in ("sparql_gvar1", "sparql_gvar2"):
+            line = out[gvar_base + (n if route == "sparql_gvar2" else 0) + pos[(s, o)]]
+            res.append(_dedup_line(line) if not closure and "|" in line else line)
+            continue
         if route == "view":
             line = out[view_base + pos[(s, o)]]
             res.append(_dedup_line(line) if not closure and "|" in line else line)
